@@ -43,6 +43,16 @@ M = [
      ("        let key = (board.current_position_hash(), player as u8);\n", "        let key = cache_key(board, player);\n"),
      ("fn count_positions_inner(", "fn cache_key(board: &Board, player: Color) -> (u64, u8) {\n    (board.current_position_hash(), player as u8)\n}\n\nfn count_positions_inner("),
    ], None, "ok", ["C02"]),
+ ('benign-extract-helper-guard-with-statements', "src/chess_move/standard.rs", [
+     ('        let en_passant_target = get_en_passant_target_square(\n            piece_to_move,\n            color_of_piece_to_move,\n            *from_square,\n            *to_square,\n        );\n        let lost_castle_rights =\n            get_lost_castle_rights_if_rook_or_king_moved(\n                piece_to_move,\n                color_of_piece_to_move,\n                *from_square,\n            ) | get_lost_castle_rights_if_rook_taken(captured_piece_and_color, *to_square);\n',
+      '        let (en_passant_target, lost_castle_rights) = get_move_info_updates(piece_to_move, color_of_piece_to_move, *from_square, *to_square, captured_piece_and_color);\n'),
+     ("/// Determines if a move is an en passant move.", 'fn get_move_info_updates(piece_to_move: Piece, color: Color, from_square: Bitboard, to_square: Bitboard, captured_piece: Option<(Piece, Color)>) -> (Bitboard, u8) {\n    if piece_to_move == Piece::Pawn {\n        let en_passant_target = get_en_passant_target_square(piece_to_move, color, from_square, to_square);\n        let lost = get_lost_castle_rights_if_rook_taken(captured_piece, to_square);\n        return (en_passant_target, lost);\n    }\n\n    let lost_castle_rights = get_lost_castle_rights_if_rook_or_king_moved(piece_to_move, color, from_square)\n        | get_lost_castle_rights_if_rook_taken(captured_piece, to_square);\n\n    (get_en_passant_target_square(piece_to_move, color, from_square, to_square), lost_castle_rights)\n}\n\n/// Determines if a move is an en passant move.'),
+   ], None, 'ok', ['C03', 'C12']),
+ ('extract-helper-guard-forgets-rook-capture', "src/chess_move/standard.rs", [
+     ('        let en_passant_target = get_en_passant_target_square(\n            piece_to_move,\n            color_of_piece_to_move,\n            *from_square,\n            *to_square,\n        );\n        let lost_castle_rights =\n            get_lost_castle_rights_if_rook_or_king_moved(\n                piece_to_move,\n                color_of_piece_to_move,\n                *from_square,\n            ) | get_lost_castle_rights_if_rook_taken(captured_piece_and_color, *to_square);\n',
+      '        let (en_passant_target, lost_castle_rights) = get_move_info_updates(piece_to_move, color_of_piece_to_move, *from_square, *to_square, captured_piece_and_color);\n'),
+     ("/// Determines if a move is an en passant move.", 'fn get_move_info_updates(piece_to_move: Piece, color: Color, from_square: Bitboard, to_square: Bitboard, captured_piece: Option<(Piece, Color)>) -> (Bitboard, u8) {\n    if piece_to_move == Piece::Pawn {\n        let en_passant_target = get_en_passant_target_square(piece_to_move, color, from_square, to_square);\n        let lost = 0;\n        return (en_passant_target, lost);\n    }\n\n    let lost_castle_rights = get_lost_castle_rights_if_rook_or_king_moved(piece_to_move, color, from_square)\n        | get_lost_castle_rights_if_rook_taken(captured_piece, to_square);\n\n    (get_en_passant_target_square(piece_to_move, color, from_square, to_square), lost_castle_rights)\n}\n\n/// Determines if a move is an en passant move.'),
+   ], None, 'violation', ['C12']),
  ("extract-helper-wrong-clock", "src/chess_move/standard.rs", [
      ("        if captured_piece_and_color.is_some() || piece_to_move == Piece::Pawn {\n            board.reset_halfmove_clock();\n        } else {\n            board.increment_halfmove_clock();\n        }\n",
       "        update_halfmove_clock(board, captured_piece_and_color.is_some());\n"),
